@@ -67,6 +67,16 @@ func (x *Exec) dynApp(sig *types.Signature, fv *Term, args []*Term) ([]*Term, bo
 
 func (x *Exec) dynamicCall(st *State, in *ssa.Call, what string) []Outcome {
 	com := in.Common()
+	// a call through a value of a named function type that has a type contract
+	if !com.IsInvoke() {
+		if n, ok := types.Unalias(com.Value.Type()).(*types.Named); ok && n.Obj().Pkg() != nil {
+			if c := x.v.cs.FuncTypes[n.Obj().Pkg().Path()+"."+n.Obj().Name()]; c != nil {
+				if fvv, ok := x.val(st, com.Value).(TV); ok {
+					return x.funcTypeCall(st, in, n, c, fvv)
+				}
+			}
+		}
+	}
 	if !com.IsInvoke() {
 		if fvv, ok := x.val(st, com.Value).(TV); ok && fvv.T.Sort == SOpq {
 			var ats []*Term
@@ -725,4 +735,43 @@ func (x *Exec) formatApp(fn string, ops []*Term) *Term {
 	}
 	x.declareFun(name, fmt.Sprintf("(declare-fun %s (%s) %s)", name, strings.Join(ps, " "), sort))
 	return App(name, sort, ops...)
+}
+
+// funcTypeCall applies the contract of a named function type to a call
+// through a value of that type; "self" names the function value.
+func (x *Exec) funcTypeCall(st *State, in *ssa.Call, n *types.Named, c *Contract, fv TV) []Outcome {
+	com := in.Common()
+	sig := com.Signature()
+	vars := map[string]Value{"self": fv}
+	for i, a := range com.Args {
+		name := fmt.Sprintf("_p%d", i)
+		if i < len(c.Params) {
+			name = c.Params[i]
+		}
+		vars[name] = x.val(st, a)
+	}
+	pre := &Snapshot{heap: copyHeap(st.heap), vars: vars, alloc: st.alloc}
+	env := &Env{x: x, st: st, heap: st.heap, vars: vars, old: pre, alloc: st.alloc, pkg: n.Obj().Pkg()}
+	for _, r := range c.Requires {
+		x.oblige(st, "requires", "call:"+n.Obj().Name()+"/"+r.Name, x.compileBool(env, r.Expr, r), in.Pos(), r)
+	}
+	ws := newWriteSet()
+	if c.Opts["allocates"] != "" {
+		ws.allocates = true
+		before := st.alloc
+		st.alloc = x.fresh("alloc", SInt)
+		st.assume(Le(before, st.alloc))
+	}
+	results := x.freshResults(st, sig.Results(), sanitize(n.Obj().Name()))
+	post := &Env{x: x, st: st, heap: st.heap, vars: map[string]Value{}, old: pre, alloc: st.alloc, pkg: n.Obj().Pkg()}
+	for k, v := range vars {
+		post.vars[k] = v
+	}
+	x.bindResults(post, sig, c, results)
+	for _, e := range c.Ensures {
+		st.assume(x.compileBool(post, e.Expr, e))
+	}
+	x.assumeNote("calls through values of type " + n.Obj().Name() + " are assumed to satisfy the type's contract (every function of that type under contract is verified against it)")
+	x.noteErrs(st, sig, results)
+	return []Outcome{{st, results}}
 }
